@@ -1,4 +1,5 @@
 import PasetoModel.JsonParse
+import PasetoModel.CivilLemmas
 import PasetoModel.ClaimsLemmas
 /-! # C14 — RegisteredClaims / Json wire form -/
 namespace PM.C14
@@ -204,6 +205,25 @@ theorem wire_text_reads_back (c : Claims) :
   unfold Json.claimsJson Json.objectText
   rw [hmap]
   exact Json.readObject_text _
+
+/-- **distinct days are written as distinct dates** (every day number, no bound): the calendar step of the RFC 3339 text
+    (`Json.civil`, compared byte for byte with jiff's output through `claims.json`) has Hinnant's `days_from_civil` as a
+    left inverse, so the year-month-day of a timestamp determines its day -/
+theorem date_determines_day (z : Int) :
+    Json.daysFromCivil (Json.civil z).1 (Json.civil z).2.1 (Json.civil z).2.2 = z :=
+  Json.daysFromCivil_civil z
+
+theorem date_injective (z₁ z₂ : Int) (h : Json.civil z₁ = Json.civil z₂) : z₁ = z₂ :=
+  Json.civil_injective z₁ z₂ h
+
+/-- the month and day written are in range for every day number (so two digits each always suffice) -/
+theorem date_fields_in_range (z : Int) :
+    1 ≤ (Json.civil z).2.1 ∧ (Json.civil z).2.1 ≤ 12 ∧ 1 ≤ (Json.civil z).2.2 ∧ (Json.civil z).2.2 ≤ 31 :=
+  Json.civil_in_range z
+
+/-! non-vacuity: 2000-02-29 and 1969-12-31 -/
+example : Json.civil 11016 = (2000, 2, 29) ∧ Json.daysFromCivil 2000 2 29 = 11016 ∧ Json.civil (-1) = (1969, 12, 31) := by
+  decide +kernel
 
 /-! non-vacuity: a concrete claim set and its text -/
 example : Json.claimsJson { iss := some [97, 34], exp := some 0 } =
